@@ -1,3 +1,4 @@
+import WaVerif.Model.C10
 /-!
 # C10 — a small interpreter for the straight-line WAT subset used by the allocator's helper functions
 
@@ -118,5 +119,12 @@ def callFn (fs : List Func) (gl : String → Int) (name : String) (args : List I
     | some fn => some (s.stack.take fn.results).reverse
     | none => none
   | none => none
+
+/-- the module's globals as far as the helper functions read them, from the template parameters -/
+def glOf (c : WaVerif.C10.Config) (g : String) : Int :=
+  if g = "__heap_base" then c.heapBase
+  else if g = "__heap_lfixed_cap" then c.cap
+  else if g = "__stack_ptr" then c.stackPtr
+  else 0
 
 end WaVerif.C10.Wat
